@@ -17,7 +17,8 @@ RULE = ('Generated: native grid (linear / log / constant-R with implied mid-poin
         'wider than native bins, or fall outside), 1-D or 2-D spectra, optional errors, and a drawn '
         'permutation of native points (spectrum, error and widths together) and of target points.  '
         'Non-trivial = some target bin overlaps >=2 native bins, at least one of them partially, with a '
-        'non-constant spectrum over them; distinct by case hash.')
+        'non-constant spectrum over them; distinct by case hash.'
+        ' The same binner is then re-used: on a rescaled native grid, on the same centres with other widths / another spectrum / the first widths again / no widths, and on a grid with the same end points and count but other interior spacing.')
 ASSUMPTIONS = [
     'a native bin is [centre-width/2, centre+width/2]; when no widths are passed the width is the '
     'mid-point width (compute_bin_edges convention documented in Binner.bindown)',
